@@ -60,12 +60,14 @@ func (b *Bucket) Capacity() int64 {
 	return atomic.LoadInt64(&b.capacity)
 }
 
-// SetCapacity sets the capacity for the bucket and resets the fill to zero.
+// SetCapacity sets the capacity for the bucket. What has been filled since the
+// last drain stays: were it forgotten, every change of capacity would grant a
+// fresh bucket at once, and a sequence of adjoining throttles (or of ranged
+// responses that each start inside a throttle) would never be delayed.
 func (b *Bucket) SetCapacity(capacity int64) {
 	log.Infof("trafficshape: set capacity: %d", capacity)
 
 	atomic.StoreInt64(&b.capacity, capacity)
-	atomic.StoreInt64(&b.fill, 0)
 }
 
 // Close stops the drain loop and marks the bucket as closed.
